@@ -314,6 +314,9 @@ theorem apply_good {s s' : St} {o : Op} (e : apply s o = .ok s') : Good s s' := 
   | transferOwner sg ra' no =>
     obtain ⟨r, hg, _, _, _, rfl⟩ := transferOwner_ok e
     exact (FS.setRa (r' := { r with owner := no }) hg rfl).good
+  | setSeqParams au sp =>
+    obtain ⟨_, hnp, _, rfl⟩ := setSeqParams_ok e
+    exact (FS.of_ras_eq (s := s) (s' := { s with sqp := sp }) rfl rfl rfl rfl).good
   | begin_ dt => simp only [apply] at e; injection e with e; subst e; exact beginBlock_good s dt
   | end_ f => simp only [apply] at e; injection e with e; subst e; exact endBlock_good s f
 
@@ -380,6 +383,9 @@ theorem apply_back {s s' : St} {o : Op} (e : apply s o = .ok s') (hne : ∀ f, o
   | transferOwner sg ra' no =>
     obtain ⟨r, hg, _, _, _, rfl⟩ := transferOwner_ok e
     exact (FS.setRa (r' := { r with owner := no }) hg rfl).back hc hi
+  | setSeqParams au sp =>
+    obtain ⟨_, hnp, _, rfl⟩ := setSeqParams_ok e
+    exact Back.of_ras_eq rfl
   | begin_ dt =>
     simp only [apply] at e; injection e with e; subst e
     exact (Back.of_ras_eq (s' := { s with h := s.h + 1, t := s.t + dt }) rfl).trans
